@@ -361,12 +361,15 @@ pub struct Pay {
     pub fresh: bool,
     pub chain: bool,
     pub addr: bool,
+    /// how a quote is forged when `sigs` is false: false = the claimed node's key with a signature made by another
+    /// key; true = a self-consistent quote of another node (its key, its valid signature) listed under the claimed node
+    pub forge_key: bool,
 }
 impl Pay {
-    pub fn all_ok() -> Self { Pay { sigs: true, self_payee: true, close: true, fresh: true, chain: true, addr: true } }
+    pub fn all_ok() -> Self { Pay { sigs: true, self_payee: true, close: true, fresh: true, chain: true, addr: true, forge_key: false } }
     pub fn from_json(v: &Value) -> Self {
         let b = |k: &str| v[k].as_bool().unwrap_or(true);
-        Pay { sigs: b("sigs"), self_payee: b("self"), close: b("close"), fresh: b("fresh"), chain: b("chain"), addr: b("addr") }
+        Pay { sigs: b("sigs"), self_payee: b("self"), close: b("close"), fresh: b("fresh"), chain: b("chain"), addr: b("addr"), forge_key: v["forge"].as_str() == Some("key") }
     }
 }
 
@@ -385,7 +388,8 @@ pub fn proof(me: &Keypair, near: &[Keypair], far: &Keypair, forger: &Keypair, co
     }
     // second payee: authentic or forged signature
     let signer = if p.sigs { &near[0] } else { forger };
-    quotes.push((EncodedPeerId::from(PeerId::from(near[0].public())), signed_quote(signer, &near[0], content, 5)));
+    let key_of = if !p.sigs && p.forge_key { forger } else { &near[0] };
+    quotes.push((EncodedPeerId::from(PeerId::from(near[0].public())), signed_quote(signer, key_of, content, 5)));
     // third payee: known as close, or unknown to the node
     let third = if p.close { &near[1] } else { far };
     quotes.push((EncodedPeerId::from(PeerId::from(third.public())), signed_quote(third, third, content, 5)));
